@@ -434,9 +434,9 @@ def _do_project(ctx, pi, strace_ok):
                         'reference_findings': len(P.ref.findings), 'options': P.opts})
             if not ctx.quick():
                 # ---- second-order histories (sampled)
-                for i in range(ctx.n(0, 24)):
-                    p1, p2 = rng.choice(trials), rng.choice(trials)
-                    _double(ctx, P, cfgname, cfgargs, state, statedir, p1, p2, '%s_%s_%d' % (cfgname, state, i))
+                pairs = [(i, rng.choice(trials), rng.choice(trials)) for i in range(ctx.n(0, 24))]
+                pmap(lambda t: _double(ctx, P, cfgname, cfgargs, state, statedir, t[1], t[2],
+                                       '%s_%s_%d' % (cfgname, state, t[0])), pairs, workers=ctx.workers)
                 # ---- write-syscall kills, no hook involved (a killed worker process alone is C21's
                 # fault model, so only the single-process configurations are enumerated here)
                 if strace_ok and cfgname in ('j1', 'thread'):
